@@ -26,6 +26,17 @@ def streamFields (name : String) (isOpen : Bool) (sums totals fbSums fbTotals : 
   s!"fbRollS={g fbSums 0} fbRollRej={g fbSums 1} fbRollF={g fbSums 2} fbCntS={g fbTotals 0} fbCntRej={g fbTotals 1} fbCntF={g fbTotals 2} " ++
   s!"lat0={pct 0} lat25={pct 25} lat50={pct 50} lat75={pct 75} lat90={pct 90} lat95={pct 95} lat99={pct 99} lat995={pct (199/2)} lat100={pct 100} latMean={msTrunc (SD.mean snap)} conc={conc}"
 
+/-- the same text from the record the model computes (`All.streamCounts`, the function the C20 theorems speak about) -/
+def streamFieldsOf (name : String) (sc : Cons.StreamCounts) (sums : List Int) (snap : List Int) (conc : Int) : String :=
+  let g (l : List Int) (i : Nat) : Int := l.getD i 0
+  let errPct := F64.toInt (F64.mul 100 (Cons.errorPercentage (g sums 0) (g sums 2) (g sums 4)))
+  let pct (p : Rat) : Int := msTrunc ((SD.percentile snap (.fin p)).getD (-1))
+  s!"name={name} open={fmtBool sc.isOpen} requestCount={sc.requestCount} errorCount={sc.errorCount} errorPercentage={errPct} " ++
+  s!"rollS={sc.rollS} rollRej={sc.rollRej} rollF={sc.rollF} rollSC={sc.rollSC} rollT={sc.rollT} rollBad={sc.rollBad} " ++
+  s!"cntS={sc.cntS} cntRej={sc.cntRej} cntF={sc.cntF} cntSC={sc.cntSC} cntT={sc.cntT} cntBad={sc.cntBad} " ++
+  s!"fbRollS={sc.fbRollS} fbRollRej={sc.fbRollRej} fbRollF={sc.fbRollF} fbCntS={sc.fbCntS} fbCntRej={sc.fbCntRej} fbCntF={sc.fbCntF} " ++
+  s!"lat0={pct 0} lat25={pct 25} lat50={pct 50} lat75={pct 75} lat90={pct 90} lat95={pct 95} lat99={pct 99} lat995={pct (199/2)} lat100={pct 100} latMean={msTrunc (SD.mean snap)} conc={conc}"
+
 partial def runConsOps (n : Nat) (w : Int) (maxHealthy : Int) (st : ConsState) (hist : SpecC20.Hist) (realOpen : Bool)
     (lines : List (String × String)) (acc : Array String) : Array String :=
   match lines with
@@ -88,7 +99,8 @@ partial def runConsOps (n : Nat) (w : Int) (maxHealthy : Int) (st : ConsState) (
       let (fc, fvc) := st.all.fb.failures.sumAt now
       let fbs : FbStats := { successes := fa, rejects := fb', failures := fc }
       let (lat', snap) := r'.latencies.snapshot now
-      let m := streamFields "c" (isOpenEff st.c) sums r'.totals [fva, fvb, fvc] [fbs.successes.total, fbs.rejects.total, fbs.failures.total] snap st.c.conc
+      let _ := (fva, fvb, fvc)
+      let m := streamFieldsOf "c" (st.all.streamCounts now (isOpenEff st.c)) sums snap st.c.conc
       -- spec: the same record computed from the history-derived numbers (latencies: no opinion, they are C15's)
       let hs := SpecC20.kinds.map fun k => SpecC20.rollingAny n w hist st.reads k now
       let ht := SpecC20.kinds.map (SpecC20.total hist)
